@@ -10,7 +10,7 @@ import random, re, shutil, time
 
 
 RANDOM_QUICK = [("small", 250)]
-RANDOM_THOROUGH = [("small", 4000), ("bigblk", 60), ("bigw", 16), ("wrap", 16)]
+RANDOM_THOROUGH = [("small", 4000), ("bigblk", 60), ("bigw", 8), ("wrap", 8)]
 
 
 def worker_families(res, quick, thorough, random_legs=True):
@@ -99,7 +99,7 @@ def c15(res):
     W.model_check(res, "MC_RecvWrapSmall")
     worker_families(res, ["MC_SendWrapReal", "MC_RecvWrapReal"],
                     ["MC_SendWrapRealDeep", "MC_RecvWrapRealDeep", "MC_SendBigWFull"], random_legs=False)
-    for profile, count in ([("wrapq", 1)] if res.tier == "quick" else [("wrap", 24), ("bigw", 16)]):
+    for profile, count in ([("wrapq", 1)] if res.tier == "quick" else [("wrap", 12), ("bigw", 8)]):
         W.run_random(res, profile, count)
 
 
@@ -446,6 +446,39 @@ def c03(res):
     res.extra["exhaustive"] = True
     # the directories themselves: with only -d and -rd given, reads must come from -d
     run_requests(res, [{"name": list(n)} for n in (b"b", b"a/a", b"a/b", b"s", b"zz", b"/b", b"a\\a")], name_requests, "dirs-rd-only", [SERVER_CONFIGS[4]])
+    # failed uploads must clean up INSIDE the receive directory only: names whose basename also
+    # exists in the server's working directory (the sandbox base holds decoys "a", "b", "outside.txt")
+    ab_events = []
+    for cfgx in (SERVER_CONFIGS[0], SERVER_CONFIGS[1]):
+        sb = NET.Sandbox(os.path.join(C.WORK, "sbx", "abort-%d" % os.getpid(), "base"), cfgx["shared"])
+        srv = NET.Server(sb, single=cfgx["single"], ro=cfgx["ro"], ow=cfgx["ow"])
+        try:
+            ab_events.append(srv.cfg_event())
+            import socket as _s
+            for k, name in enumerate([b"zz/b", b"newdir/outside.txt", b"a/outside.txt", b"outside.txt", b"sub\\a"]):
+                sock = _s.socket(_s.AF_INET, _s.SOCK_DGRAM)
+                sock.bind((NET.HOST, 0))
+                req = NET.rq(2, name)
+                sock.sendto(req, (NET.HOST, srv.port))
+                b, addr = NET.recv_reply(sock, 1.0)
+                ev = {"e": "req", "sid": 9000 + k, "bytes": NET.codes(req), "known": False, "tried": False, "completed": False,
+                      "up": "", "delta": [], "probe": False, "from": "na", "reply": {"k": "none"}}
+                if b is not None:
+                    r = NET.parse(b)
+                    ev["from"] = "listener" if addr[1] == srv.port else "worker"
+                    ev["reply"] = {"k": r["k"], "n": r.get("n", 0)} if r["k"] == "ack" else ({"k": "error", "code": r["code"]} if r["k"] == "error" else {"k": r["k"]})
+                    if r["k"] == "ack":
+                        sock.sendto(NET.data(1, b"x" * 512), addr)      # a full block: the upload is under way
+                        NET.recv_reply(sock, 0.5)
+                        sock.sendto(NET.error(0, b"abort"), addr)       # ... and is aborted
+                        time.sleep(0.15)
+                sock.close()
+                ev["delta"] = sb.delta("", None)
+                ab_events.append(ev)
+        finally:
+            srv.stop()
+            shutil.rmtree(os.path.dirname(sb.base), ignore_errors=True)
+    judge_net_trace(res, ab_events, "aborted-uploads")
     # beyond the alphabet: seeded random / mutated names up to the request limit
     rng = random.Random(C.seed())
     parts = [b"a", b"b", b"s", b"..", b".", b"...", b"", b"root", b"rootx", b"send", b"recv", b"sendx", b"outside.txt", b"%2e%2e",
@@ -465,7 +498,8 @@ def c03(res):
 ALL_CONFIGS = [dict(shared=sh, single=si, ro=ro, ow=ow, clean=cl)
                for sh in (True, False) for si in (False, True) for ro in (False, True) for ow in (False, True)
                for cl in (True, False)]
-POLICY_NAMES = [b"zz", b"b", b"s", b"a/a", b"a/new", b"a", b"nodir/x", b"../b", b"/b", b"\\a\\b"]
+POLICY_NAMES = [b"zz", b"b", b"s", b"a/a", b"a/new", b"a", b"nodir/x", b"../b", b"/b", b"\\a\\b",
+                b"b/child", b"x" * 300, b".b", b"./b", b".zz", b"ln"]
 POLICY_OPTS = [(), (("blksize", 1024),), (("timeout", 0),), (("tsize", 0), ("windowsize", 2))]
 
 
@@ -630,6 +664,11 @@ def boundary_transfers(res, direction, tag):
                 else:
                     name = "bt_up_%d.bin" % k
                     clients.append(("u", "%s-b%d-w%d" % (tag, blk, w), name.encode(), (nb, last), opts))
+            if direction == "download":
+                for nm, seedid in ((".dot.bin", 7000), ("dot.bin", 8000)):
+                    content = b"".join(X.payload(seedid + i, 512 if i < 3 else 77) for i in range(1, 4))
+                    open(os.path.join(sb.send, nm), "wb").write(content)
+                    clients.append(("d", "%s-%s" % (tag, nm), nm.encode(), content, []))
             for kind, label, name, what, opts in clients:
                 if kind == "d":
                     c = X.Download(srv, label, name, what, opts=opts, sock=shared_sock)
@@ -736,6 +775,17 @@ def c09_first_reply(res):
             out = [NET.rq(1, b"b", opts), NET.rq(2, b"new", opts)]
             return out if q else out + [NET.rq(1, b"a/a", opts)]
         run_requests(res, vectors, reqs, fam, [SERVER_CONFIGS[0], SERVER_CONFIGS[2]])
+    # unknown options before / between / after recognised ones, odd spellings, a symbolic link as the
+    # file whose true size tsize must report (raw requests; the decoder's view comes from Codec.Decode)
+    mixed = [[("rollover", 0), ("blksize", 1024)], [("blksize", 1024), ("multicast", ""), ("windowsize", 2)],
+             [("x", "y"), ("TSIZE", 0)], [("tsize", 0), ("unknown", 1), ("timeout", 3), ("zzz", "")],
+             [("BlKsIzE", 9), ("blksize2", 7)], [("timeout", 2), ("", "")], [("tsize", 0)], [("tsize", 12345)]]
+    raw = [{"raw": [[o, str(v)] for o, v in m]} for m in mixed]
+
+    def raw_reqs(v):
+        opts = [(o, val) for o, val in v["raw"]]
+        return [NET.rq(1, b"b", opts), NET.rq(1, b"ln", opts), NET.rq(2, b"new2", opts)]
+    run_requests(res, raw, raw_reqs, "mixed-options", [SERVER_CONFIGS[0], SERVER_CONFIGS[2]])
     res.assumptions += ["first reply compared field by field with Negotiate (Options.tla); silence confirmed by a sentinel exchange with the single-threaded listener"]
 
 
@@ -1221,6 +1271,11 @@ def c05(res):
                 NET.rq(2, b"pro2", [("blksize", 65464), ("windowsize", 65535)]), NET.rq(1, b"b", [("blksize", 9), ("timeout", 255)])):
         vectors += [{"b": list(pro), "probe": False}, dict(probe_v), {"b": list(NET.rq(1, b"a/b", [("blksize", 1024)])), "probe": False},
                     {"b": list(NET.rq(2, b"after", [("tsize", 7)])), "probe": False}]
+    # truncated to 2 and 3 bytes, every opcode (the property names truncation explicitly)
+    for op in range(0, 8):
+        for tail in (b"", b"\x00", b"\x01", b"\x00\x00"):
+            vectors.append({"b": [0, op] + list(tail), "probe": False})
+    vectors.append(dict(probe_v))
     for i in range(n_per):
         vectors.append({"b": list(fuzz_datagram(rng)[:500]), "probe": False})
         if i % 40 == 39:
@@ -1394,6 +1449,18 @@ def c14(res):
             finals.append(fin)
         finally:
             drop_server(sb, srv)
+    # distinct send / receive directories: uploads land in the receive directory, downloads come from the send directory
+    sb, srv = with_server("interop-dirs", shared=False, ow=False)
+    work = os.path.join(os.path.dirname(sb.base), "client")
+    try:
+        content = X.make_file(3, 512, 100)
+        open(os.path.join(sb.send, "dd.bin"), "wb").write(content)
+        for direction in ("upload", "download"):
+            se, ce, fin = IO.one_run(srv, sb, work, direction, "dd.bin", content, 512, 2, 1, "dirs-%s" % direction)
+            xfer_events += se + ce
+            finals.append(fin)
+    finally:
+        drop_server(sb, srv)
     # IPv6 loopback
     sb, srv = with_server("interop-v6", shared=True, ow=True, host="::1")
     work = os.path.join(os.path.dirname(sb.base), "client")
